@@ -339,6 +339,23 @@ def perform_compile(
             compile_roots(
                 node, None, repo, results, options, max_downgrade=max_downgrade
             )
+        # A walk-back that gave up can leave a required project without a solution
+        # after its requirers were processed. Solve it again, which reports the real
+        # conflict, and never return a result that silently lacks a required project.
+        retried: Set[DependencyNode] = set()
+        while True:
+            pending = [
+                node
+                for node in sorted(results.visit_nodes(roots))
+                if node.metadata is None and node not in retried
+            ]
+            if not pending:
+                break
+            retried.add(pending[0])
+            compile_roots(pending[0], None, repo, results, options, max_downgrade=0)
+        for node in sorted(results.visit_nodes(roots)):
+            if node.metadata is None:
+                raise NoCandidateException(node.build_constraints())
     except (NoCandidateException, MetadataError) as ex:
         if not remove_constraints:
             _add_constraints(all_pinned, constraint_reqs, results)
